@@ -65,7 +65,7 @@ def read_features(feature: Feature, tab_count: int) -> str:
     result += safename(feature.name)
     if feature.get_attributes():
         result += f' : {ATTRIBUTED_FEATURE}'
-    if feature.is_optional():
+    if feature.is_optional() or _in_any_number_group(feature):
         result += ' ?'
 
     # Feature's attributes
@@ -77,6 +77,16 @@ def read_features(feature: Feature, tab_count: int) -> str:
     for child in feature.get_children():
         result += read_features(child, tab_count)
     return result
+
+
+def _in_any_number_group(feature: Feature) -> bool:
+    """A [0..*] group is Clafer's default group cardinality, under which a child is mandatory
+    unless it is marked: the members of such a group are written with '?'."""
+    parent = feature.get_parent()
+    return parent is not None and any(
+        r.is_cardinal() and r.card_min == 0 and r.card_max == -1 and feature in r.children
+        for r in parent.get_relations()
+    )
 
 
 def read_feature_attributes(feature: Feature, tab_count: int) -> str:
